@@ -74,6 +74,11 @@ CHECKS = {
         text="Model/OpenAPI.lean gives the meaning of 'the document lists exactly the mounted operations': the rewriting of mounted route patterns into OpenAPI path templates (catch-alls become ordinary variables, literals untouched, variable order kept), the set comparison of documented and mounted (method, template) pairs and the consistency of declared path parameters with the template's variables; Props/C07.lean proves that the comparison reports nothing iff the sets are equal and that everything it reports is a genuine difference. Tie: per design goa generates the four documents and the server; the generated Mount functions run against a recording muxer (what the server really mounts), the documents are loaded and validated by an independent implementation (kin-openapi; v2 also through its conversion to v3; JSON and YAML renderings compared as trees), and parameters (name, location, required), request body presence, response codes and security requirements are compared with what the design maps. drv_oas (compiled from the Lean model) decides the operation-set and path-parameter comparisons.",
         note="Validity of the documents against the OpenAPI specifications is decided by a library (kin-openapi + the extra 2.0 rules of harness/cmd/rtopenapi), not proved. The Lean model covers the operation-set/template/path-parameter part; expected parameters, bodies, codes and security are derived from the design IR by vlib/c07.py. File servers, multiple routes per endpoint and openapi:* metadata are not generated yet.",
         ref="DESIGN.md §3 C07", technique="Lean 4 proof of the operation-set/template comparison + differential check of generated documents (independent OpenAPI loader/validator) against the routes the generated server mounts"),
+    "C09": dict(
+        category="proof",
+        text="Model/FS.lean: the output directory as a transition system (File.Render with O_APPEND, SkipExist and whole-file formatting; the removal of gen's sub-directories before gen; gen, example, user edits and deletions). Props/C09.lean: gen_state_independent (inside gen's sub-directories the result of gen does not depend on the prior state at all), gen_frame, gen_idempotent, gen_content (each file holds exactly its own rendering, nothing appended), example_preserves (content and write count of every existing file), edit_survives (any later sequence of gen/example), history_gen_same (every history ending in gen has the gen/ part of a fresh run), render_twice_appends (why the cleanup is needed). Map iteration order: one order-independence lemma per loop shape (collect-then-sort, keyed store, per-entry, existence test, counters; first-match is proved order-DEPENDENT with a witness and order-free under uniqueness) and sites_accounted, decided by `decide` over the table of every `range` over a map in the generator packages, regenerated from /repo's working tree by gofacts in every run. Tie: the real goa command (cmd/goa built from the working tree) on real directories: 2-4 fresh processes per design, gen over its own output, stale files, example, every example file edited / emptied / deleted, example, gen, example-then-gen, and two generations in one process; sha256, mtime and file lists compared; the final directory of each history compared with drv_fs compiled from the model.",
+        note="The map-range shape classifier and the reviewed list are a static analysis with manual review, not a proof that every loop body is order-free; the dynamic runs (Go randomises map iteration per loop and per process) are the search. A second generation in the same process is done the way goa's own tests do it (fresh DSL evaluation, package-level caches service.Services/HTTPServices/GRPCServices/openapi.Definitions emptied); without that reset goa is not repeatable in-process, which is outside its supported use. gofmt/imports.Process is a parameter of the model. Streaming, gRPC and plugins are not generated yet.",
+        ref="DESIGN.md §3 C09", technique="Lean 4 proof over a file-system transition model and over a regenerated table of map-range sites + differential runs of the real goa command (histories on real directories) against the Lean driver"),
     "C03": dict(
         category="proof",
         text="Same exchanges as C02, response direction: the result the stub service returns must equal what the generated client hands to the caller, with the designed status code and exactly one WriteHeader; Lean part shared with C02 (string transport of header values, partition).",
